@@ -44,7 +44,7 @@ META = {
     ],
     "bounds": {"quick": {"compute": [(3, 1), (4, 3), (5, 8), (8, 4), (8, 8)], "processor_entries": 12,
                          "trailer": [(8, 8), (8, 4), (16, 8), (6, 3)]},
-               "thorough": {"compute": [(1, 1), (3, 1), (4, 3), (5, 8), (8, 4), (8, 8), (16, 8), (12, 5), (12, 12)],
+               "thorough": {"compute": [(1, 1), (3, 1), (4, 3), (5, 8), (8, 4), (8, 8), (16, 8), (12, 5), (10, 10)],
                             "processor_entries": 200, "trailer": [(8, 8), (8, 4), (16, 8), (6, 3), (16, 16), (24, 8), (32, 8)]}},
     "explanation": "function contract on compute per width pair + one-step hardware lemma + trailer unrolling",
 }
@@ -247,7 +247,7 @@ def _entries():
             out.append((n, a, dw))
     for n in names:
         a = getattr(catalog, n)
-        for dw in (4, 12):
+        for dw in (4, 8):
             out.append((n, a, dw))
     return out
 
